@@ -231,6 +231,33 @@ def drive(rec, ms, quick):
     rec.data["events"] = events
 
 
+def drive_helpers(rec, quick):
+    """index helpers of commons_private.c on every power of two and on sampled arguments"""
+    rng = random.Random(rec.seed + 404)
+    L = Lib.get()
+    events = []
+    if not rec.progress("index helpers"):
+        rec.data["events"] = events
+        return
+    for k in range(0, 31):
+        events.append({"e": "Helper", "fn": "log2m", "x": 1 << k, "val": int(L.fn("log2m", "w w")(1 << k))})
+    xs = sorted(set(list(range(0, 70)) + [(1 << k) - 1 for k in range(1, 17)] + [1 << k for k in range(0, 16)] + [rng.randrange(1 << 16) for _ in range(200 if quick else 4000)]))
+    frb = L.fn("fracrevbits", "d w")
+    for x in xs:
+        v = frb(x) * 65536.0
+        events.append({"e": "Helper", "fn": "fracrevbits", "x": x, "val": int(v) if v == int(v) else -1})
+        nb = rng.randrange(1, 17)
+        xx = x & ((1 << nb) - 1)
+        events.append({"e": "Helper", "fn": "revbits", "nbits": nb, "x": xx, "val": int(L.fn("revbits", "w ww")(nb, xx))})
+    for x in list(range(0, 200)) + [rng.randrange(1 << 30) for _ in range(100)]:
+        for fn in ("ceilto64b", "ceilto32b"):
+            events.append({"e": "Helper", "fn": fn, "x": x, "val": int(L.fn(fn, "u u")(x))})
+    for ev in events:
+        ev["_what"] = "%s(%s) = %s" % (ev["fn"], ev["x"], ev["val"])
+    rec.case(("helpers",))
+    rec.data["events"] = events
+
+
 def drive_tables(rec, tabs):
     """advisory: real reim and cplx, forward and inverse tables against the tables generated from the schedules"""
     try:
@@ -296,9 +323,10 @@ def run(chk, replay=None):
             tb["inverse"] = True
             tabs.append(tb)
     ms = [1 << s for s in range(0, 13)] + [65536] if quick else [1 << s for s in range(0, 17)]
-    jobs = [("FFT probes m=%s" % ms[i::7], drive, (ms[i::7], quick)) for i in range(7)] + [("table binding", drive_tables, (tabs,))]
-    res = isolated_many(chk, jobs, timeout=3000, nproc=8)
-    events = [ev for d in res[:7] if d for ev in d["events"]]
+    jobs = [("FFT probes m=%s" % ms[i::7], drive, (ms[i::7], quick)) for i in range(7)] + [("table binding", drive_tables, (tabs,)),
+                                                                                              ("index helpers", drive_helpers, (quick,))]
+    res = isolated_many(chk, jobs, timeout=3000, nproc=9)
+    events = [ev for d in res[:7] if d for ev in d["events"]] + (res[8]["events"] if res[8] else [])
     td = res[7] or {}
     chk.cov["table_entries_checked"] = td.get("checked", 0)
     if td.get("drift"):
@@ -310,7 +338,7 @@ def run(chk, replay=None):
         chk.add_tlc(rr, "trace validation")
     chk.traces += len(events) - len(bad)
     chk.cov["events_validated"] = len(events)
-    chk.cov["by_kind"] = {k: sum(1 for e in events if e["e"] == k) for k in ("Impulse", "NormErr", "Same")}
+    chk.cov["by_kind"] = {k: sum(1 for e in events if e["e"] == k) for k in ("Impulse", "NormErr", "Same", "Helper")}
     worst = 0.0
     for ev in events:
         if ev["e"] == "NormErr":
